@@ -229,6 +229,65 @@ def late_items():
     return items
 
 
+RELOGIN_PAIRS = {
+    "rw-then-ro": ([], [("/pub", True, False)]),
+    "ro-then-rw": ([("/pub", True, False)], []),
+    "hidden-then-open": ([("/priv", False, False)], [("/priv", True, True)]),
+    "open-then-hidden": ([], [("/priv", False, False), ("/pub/sub", False, True)]),
+}
+RELOGIN_TOUCH = ["MLST {p}", "CWD {d}", "RNFR {p}", "DELE /nope", "LIST {d}", "RETR {p}", "STOR {d}/t", "MKD {d}/m"]
+RELOGIN_VERBS = ["DELE", "RETR", "STOR", "APPE", "MKD", "RMD", "RNFR", "MLST", "LIST", "MLSD", "CWD"]
+
+
+def relogin_case(item):
+    """one control connection: user A touches a path, then USER (and PASS where needed) as user B whose table differs
+    on that path; B's requests must be authorised by B's table only"""
+    pname, first, touch, verb = item
+    part = report.Partial()
+    ta, tb = RELOGIN_PAIRS[pname]
+    ua = M.UserSpec("alice", "pw", perms=ta)
+    ub = M.UserSpec("guest", None, perms=tb)
+    a, b = (ua, ub) if first == "alice" else (ub, ua)
+    conf = Conf([ua, ub], TREE)
+    for d, p in (("/pub", "/pub/f"), ("/priv", "/priv/f"), ("/pub/sub", "/pub/sub/g")):
+        for alias in (p, "/pub/../" + p[1:], p.replace("/", "//")):
+            rig = conf.new_rig()
+            model = conf.new_model()
+            try:
+                rig.ev(0, "@connect")
+                hist = ["USER " + a.login] + (["PASS pw"] if a.password else []) + ["EPSV", "@data",
+                                                                                  touch.format(p=p, d=d)]
+                hist += ["USER " + b.login] + (["PASS pw"] if b.password else []) + ["EPSV", "@data"]
+                target = alias if verb not in ("LIST", "MLSD", "CWD", "MKD", "RMD") else (d if verb != "MKD" else d + "/n")
+                hist += [f"{verb} {target}", "PWD"]
+                problems = []
+                for k, line in enumerate(hist):
+                    pr, obs = conf_step(rig, model, line, conf)
+                    for q in pr:
+                        q["history"] = hist[:k + 1]
+                    problems += pr
+                    if pr:
+                        break
+                part.evaluations += 1
+                part.traces += 1
+                part.transitions += len(hist)
+                k = report.fp(["relogin", pname, first, touch, verb, d, alias])
+                part.states.add(k)
+                part.nontrivial.add(k)
+                for q in problems[:1]:
+                    part.violation({"kind": q["kind"], "verb": verb, "relogin": pname, "first": first},
+                                   {"problem": q}, replay={"relogin": list(item)})
+            finally:
+                rig.close()
+    part.sample({"relogin": pname, "first_user": first, "touch": touch, "then": verb}, limit=1)
+    return part
+
+
+def relogin_items():
+    return [(pn, first, t, v) for pn in RELOGIN_PAIRS for first in ("alice", "guest") for t in RELOGIN_TOUCH
+            for v in RELOGIN_VERBS]
+
+
 def wire_items(tier):
     items = []
     for tname in WTABLES:
@@ -246,12 +305,14 @@ def wire_items(tier):
 
 def run(tier, seed, t0):
     parts = report.pmap(func_work, func_items(tier)) + report.pmap(wire_case, wire_items(tier)) + \
-        report.pmap(late_case, late_items())
+        report.pmap(late_case, late_items()) + report.pmap(relogin_case, relogin_items())
     part = report.merge_all(parts)
     bounds = {"function": {"entries": len(ENTRIES), "tables": "all ordered tables of <= 3 entries (with duplicates) over 6 paths x 4 flag combinations",
                            "queries": "all paths of depth <= %d over {a,b,c}" % (3 if tier == "quick" else 4)},
               "wire": {"tables": list(WTABLES), "verbs": VERBS, "targets": TARGETS, "cwds": CWDS,
                        "alias_spellings": 8},
+              "relogin": {"table_pairs": list(RELOGIN_PAIRS), "touch": RELOGIN_TOUCH, "verbs": RELOGIN_VERBS,
+                          "users": "alice (password) and guest (no password), either first"},
               "late_data": {"tables": list(LATE_TABLES), "verbs": ["RETR", "STOR", "APPE", "LIST", "MLSD"],
                             "what": "verb before the data connection, CWD to a differently-permitted directory while "
                                     "the server waits, then the data connection"}}
@@ -268,7 +329,9 @@ def run(tier, seed, t0):
 def replay(path):
     data = json.loads(open(path).read())
     rp = data["replay"]
-    if rp.get("late"):
+    if rp.get("relogin"):
+        part = relogin_case(tuple(rp["relogin"]))
+    elif rp.get("late"):
         part = late_case(tuple(rp["late"]))
     elif rp.get("func"):
         part = func_work(([tuple(tuple(e) for e in rp["table"])], [rp["query"]]))
